@@ -96,7 +96,7 @@ Qed.
 
 Lemma track_restart_ok X cfg i order s s' o t :
   cfg_ok cfg → Inv cfg s → TR X cfg s t → (s', o) ∈ restart cfg order s →
-  TR X cfg s' (track_step cfg i (ERestart order) o t).
+  TR X cfg s' (track_step0 cfg i (ERestart order) o t).
 Proof.
   intros Hcfg HI HT Hin. destruct (restart_facts _ _ _ _ _ HI Hin) as (-> & Hnow & Hw & Hsess).
   pose proof (tr_holds _ _ _ _ HT) as HH. destruct (inv_views _ _ HI) as [Hv _]. simpl.
